@@ -26,8 +26,8 @@ OPS = {"LISTSCRIPTS": ("listscripts", ()), "PUTSCRIPT": ("putscript", ("s", "kee
        "HAVESPACE": ("havespace", ("s", 3)), "DELETESCRIPT": ("deletescript", ("s",)),
        "SETACTIVE": ("setactive", ("s",)), "GETSCRIPT": ("getscript", ("s",)),
        "LOGOUT": ("logout", ()), "CAPABILITY": ("capability", ())}
-C10_CLAUSES = ("NoScriptCmdBeforeAuth", "NoCredsBeforeTLS", "MechFromPostTLSCaps")
-C16_CLAUSES = ("MechRight", "MechFromPostTLSCaps", "ConnectTrueWithoutOK", "ConnectNotTrueAfterOK")
+C10_CLAUSES = ("NoScriptCmdBeforeAuth", "NoCredsBeforeTLS", "MechFromPostTLSCaps", "MechAvailableNotTried")
+C16_CLAUSES = ("MechRight", "MechFromPostTLSCaps", "ConnectTrueWithoutOK", "ConnectNotTrueAfterOK", "MechAvailableNotTried")
 
 
 # (realm offered, nonce, qop-options) of the digest-challenge; all with charset=utf-8 and algorithm=md5-sess
@@ -36,10 +36,16 @@ DIGEST_VARIANTS = [(b"r", b"abc", b"auth"), (None, b"OA6MG9tEQGm2hh", b"auth"),
 
 
 def caps_bytes(c):
-    lines = [b'"IMPLEMENTATION" "ref"']
+    """the capability view c on the wire; c["enc"] = "l": values are sent as literals (RFC 5804 1.7: a capability value
+    is a `string', quoted or literal) -- the client's view must not depend on it"""
+    lit = c.get("enc") == "l"
+
+    def val(b):
+        return b"{%d}\r\n%s" % (len(b), b) if lit else b'"' + b + b'"'
+    lines = [b'"IMPLEMENTATION" ' + val(b"ref 1.0")]
     if c["sasl"] != ABSENT:
-        lines.append(b'"SASL" "' + " ".join(c["sasl"]).encode() + b'"')
-    lines.append(b'"SIEVE" "fileinto"')
+        lines.append(b'"SASL" ' + val(" ".join(c["sasl"]).encode()))
+    lines.append(b'"SIEVE" ' + val(b"fileinto vacation"))
     if c["tls"]:
         lines.append(b'"STARTTLS"')
     return b"\r\n".join(lines) + b"\r\nOK\r\n"
@@ -386,6 +392,9 @@ CONFIGS = {
         {"maxcalls": 3, "prefs": [""], "tls": [True, False], "reactions": ["OK", "NO"],
          "ops": ["LISTSCRIPTS", "PUTSCRIPT"],
          "pairs": [{"pre": {"sasl": ["PLAIN", "LOGIN"], "tls": True}, "post": {"sasl": ["LOGIN"], "tls": False}}]},
+        # capability values sent as literals, before and after TLS
+        {"maxcalls": 2, "prefs": [""], "tls": [True, False], "reactions": ["OK", "NO"], "ops": ["LISTSCRIPTS"],
+         "pairs": [{"pre": {"sasl": ["LOGIN"], "tls": True, "enc": "l"}, "post": {"sasl": ["PLAIN"], "tls": False, "enc": "l"}}]},
         # LOGOUT / CAPABILITY between connects and operations (no authentication needed, LOGOUT closes)
         {"maxcalls": 3, "prefs": [""], "tls": [False], "reactions": ["OK", "NO"], "ops": ["LISTSCRIPTS", "LOGOUT", "CAPABILITY"],
          "pairs": [{"pre": {"sasl": ["PLAIN"], "tls": False}, "post": {"sasl": ["PLAIN"], "tls": False}}]},
@@ -431,6 +440,8 @@ def c16_configs(tier, seed):
         rng.shuffle(rest)
         lists = keep + rest[:60]
     pairs = [{"pre": {"sasl": l, "tls": False}, "post": {"sasl": l, "tls": False}} for l in lists]
+    pairs += [{"pre": {"sasl": l, "tls": False, "enc": "l"}, "post": {"sasl": l, "tls": False, "enc": "l"}}
+              for i, l in enumerate(lists) if l != ABSENT and (tier == "thorough" or i % 3 == 0)]
     prefs = ["", "PLAIN", "LOGIN", "OAUTHBEARER", "DIGEST-MD5", "XOAUTH", "plain"]
     return [{"maxcalls": 1, "prefs": prefs, "tls": [False], "reactions": ["OK", "NO", "BYE"], "ops": ["LISTSCRIPTS"],
              "pairs": pairs}]
